@@ -22,14 +22,21 @@ def pick(rnd, i):
     rp = rnd.randint(1, 3)
     wp = 1 if mt == "MultiRead" else rnd.randint(1, min(3, depth))
     struct = gran is None and mt == "Memory" and width % 2 == 0 and rnd.random() < 0.3
+    # array rows: the granularity then counts ELEMENTS (a quarter of the Memory / MultiRead configurations)
+    elem = None
+    if mt in ("Memory", "MultiRead") and not struct and rnd.random() < 0.25:
+        elem = (rnd.choice([2, 3, 8]), rnd.choice([2, 4]))
+        width = elem[0] * elem[1]
+        gran = rnd.choice([None, 1, 2] if elem[1] == 4 else [None, 1])  # in elements
     case = {"kind": f"MemoryBank[{mt}]", "transparent": tr, "read_on_resp": ror, "granularity": gran, "width": width, "depth": depth,
-            "read_ports": rp, "write_ports": wp, "struct_shape": struct}
+            "read_ports": rp, "write_ports": wp, "struct_shape": struct, "array_row(element_width,count)": elem}
 
     def make(r):
-        from amaranth.lib.data import StructLayout
-        shape = StructLayout({"lo": width // 2, "hi": width // 2}) if struct else width
+        from amaranth.lib.data import ArrayLayout, StructLayout
+        shape = ArrayLayout(elem[0], elem[1]) if elem else StructLayout({"lo": width // 2, "hi": width // 2}) if struct else width
         dut = MemoryBank(shape=shape, depth=depth, granularity=gran, transparent=tr, read_on_resp=ror, read_ports=rp, write_ports=wp, memory_type=MEMS[mt])
-        return dut, MemBankM(depth, width, rp, wp, tr, ror, gran, struct=struct)
+        bit_gran = gran * elem[0] if (elem and gran is not None) else gran
+        return dut, MemBankM(depth, width, rp, wp, tr, ror, bit_gran, struct="array" if elem else struct, elem=elem)
 
     return case, make, ""
 
@@ -37,7 +44,7 @@ def pick(rnd, i):
 CHECK = ComponentCheck("C21", pick, tiers={"quick": (96, 300), "thorough": (3200, 1200)}, drain=6)
 shards, run_shard = CHECK.shards, CHECK.run_shard
 RULE = ("[in 30% of the histories every provided exclusive method has a second, competing caller transaction: a request is issued by the main caller, the rival or both; condition exclusive_method_serves_at_most_one_caller_per_cycle] histories = hostile random read_req/read_resp/write sequences over transparent x read_on_resp (all four modes every run) x granularity {None, "
-        "divisors of the width} x 1-3 read ports x 1-3 write ports x depth {2,4,5,8} x memory_type {Memory (3/4 of the budget), MultiRead, XOR, XORILVT, "
+        "divisors of the width; for array rows (a quarter of the Memory/MultiRead configurations) the granularity counts elements} x 1-3 read ports x 1-3 write ports x depth {2,4,5,8} x memory_type {Memory (3/4 of the budget), MultiRead, XOR, XORILVT, "
         "OneHotILVT}; half of the cycles aim a write at the address of a pending response; two write ports never address one row; a response is "
         "compared with an ideal memory at request time (or response time with read_on_resp), same-cycle writes counted exactly when transparent; "
         "distinct non-trivial case = (mode, granularity, port counts, tags among write-hits-pending / partial-mask / write+request same row / overflow "
